@@ -51,7 +51,7 @@ var props = map[string]propInfo{
 	"C07": {Level: "fault_enumeration", QuickS: 60, ThoroughS: 600},
 	"C08": {Level: "exploration", QuickS: 60, ThoroughS: 600},
 	"C09": {Level: "exploration", QuickS: 60, ThoroughS: 600},
-	"C10": {Level: "exploration", QuickS: 60, ThoroughS: 600},
+	"C10": {Level: "exploration", QuickS: 80, ThoroughS: 600},
 	"C11": {Level: "fault_enumeration", QuickS: 60, ThoroughS: 600},
 	"C12": {Level: "exploration", QuickS: 60, ThoroughS: 600},
 	"C13": {Level: "model_checking", QuickS: 60, ThoroughS: 600},
